@@ -113,9 +113,10 @@ Section INST.
     && seteq_s (o_ids a) (o_ids b) && Nat.eqb (length (o_ids a)) (length (o_ids b))
     && opens_same (o_open a) (o_open b).
 
-  Definition cache_same (a b : cache) : bool :=
-    Nat.eqb (length a) (length b) &&
+  Definition cache_le (a b : cache) : bool :=
     forallb (fun p => match alookup (fst p) b with Some v => json_same8 (snd p) v | None => false end) a.
+  Definition cache_same (a b : cache) : bool :=
+    Nat.eqb (length a) (length b) && cache_le a b && cache_le b a.
 
   Definition file_same (a b : option cache) : bool :=
     match a, b with
